@@ -873,6 +873,24 @@ pub fn cmd_sweep_c09(args: &[String]) {
                 Err(p) => rep.fail("PwHash::hash_with_salt panics on an out-of-range parameter", json!({"what": what, "panic": p})),
             }
         }
+        // output and salt lengths beyond the range (2^32 and up): an error from every entry point that sizes a buffer after them
+        for (what, hl, sl) in [("hash_length 15", 15usize, 16usize), ("hash_length 0", 0, 16), ("hash_length usize::MAX", usize::MAX, 16), ("hash_length 2^63", 1usize << 63, 16), ("hash_length 2^32", 1usize << 32, 16),
+            ("salt_length usize::MAX", 32, usize::MAX), ("salt_length 2^63", 32, 1usize << 63), ("salt_length 7", 32, 7), ("salt_length 0", 32, 0)] {
+            let cfg = || dryoc::pwhash::Config::interactive().with_opslimit(1).with_memlimit(8192).with_hash_length(hl).with_salt_length(sl);
+            rep.evaluations += 2;
+            match catch(|| dryoc::pwhash::PwHash::<Vec<u8>, Vec<u8>>::hash(&pw, cfg())) {
+                Ok(Err(_)) => {}
+                Ok(Ok(_)) => rep.fail("PwHash::hash accepts an out-of-range length", json!(what)),
+                Err(p) => rep.fail("PwHash::hash panics on an out-of-range length", json!({"what": what, "panic": p})),
+            }
+            if sl == 16 {
+                match catch(|| dryoc::pwhash::PwHash::<Vec<u8>, Vec<u8>>::hash_with_salt(&pw, salt.to_vec(), cfg())) {
+                    Ok(Err(_)) => {}
+                    Ok(Ok(_)) => rep.fail("PwHash::hash_with_salt accepts an out-of-range length", json!(what)),
+                    Err(p) => rep.fail("PwHash::hash_with_salt panics on an out-of-range length", json!({"what": what, "panic": p})),
+                }
+            }
+        }
         // the builder of the object API: every order of the with_* calls and every preset as a starting point configure the
         // same hash (a setter keeps what the other setters set)
         {
